@@ -30,6 +30,8 @@ def chain_mixed(args, rng):
     ops, i = [], 0
     while i < len(args) or not ops:
         r = rng.random()
+        if rng.random() < 0.06:
+            ops.append("q:.")        # ask for the text in between (may raise: too few so far), then go on
         if r < 0.4 and i < len(args):
             ops.append("p:" + warg(args[i])); i += 1
         elif r < 0.5:
@@ -64,6 +66,11 @@ def parse_case(case):
         w = ["os"] + w[4:]
     if w[0] == "rel":
         w = ["rel", w[2]] + [x for x in w[4:] if x != "/"]
+    if w[0] in ("lit", "excf"):
+        kindname = w[0]
+        w = ["fmt"] + w[1:]
+    else:
+        kindname = None
     if w[0] in ("fmt", "seq", "os", "rel"):
         ops, fs, newf = [], [], True
         for o in w[1:]:
@@ -74,7 +81,7 @@ def parse_case(case):
             else:
                 body = o[2:]
                 ops.append((o[0], [] if body == "." else body.split(",")))
-        return w[0], (fs[0] if w[0] != "seq" else " ".join(fs)), ops
+        return kindname or w[0], (fs[0] if w[0] != "seq" else " ".join(fs)), ops
     return "exc", None, [("e", w[1:])]
 
 class C08(Check):
@@ -175,7 +182,7 @@ class C08(Check):
             for _ in range(n):
                 r = rng.random()
                 if r < 0.45:
-                    args.append(S(rng.choice(VALS + ["{}{}", "}{", "{{}}", "a{}b", "abc", " ", "{0}"])))
+                    args.append(S(rng.choice(VALS + ["{}{}", "}{", "{{}}", "a{}b", "abc", " ", "{0}", "$&", "$0", "$1", "\\1", "%s", "%d", "$`", "\\{\\}", "\n"])))
                 elif r < 0.75:
                     args.append(("i", rng.choice(INTS) if rng.random() < 0.5 else rng.randint(-10**rng.randint(1, 18), 10**rng.randint(1, 18))))
                 else:
@@ -251,6 +258,42 @@ class C08(Check):
                             m = 1 if s == "p" else int(s[1])
                             ops.append("p:" + warg(args[i]) if s == "p" else "a:" + wargs(args[i:i + m])); i += m
                         yield fmt_case(f, ops), "fmt-chain-shape"
+        # asking for the text in the middle of a chain, also when that raises (too few so far), must not change what follows
+        for k in range(0, 4):
+            f = "|".join(["{}"] * k) if k else "x"
+            for n in sorted(set([max(0, k - 1), k, k + 1])):
+                args = [A(CARGS[j % len(CARGS)]) for j in range(n)]
+                for qpos in range(0, n + 1):
+                    ops = chain_pct(args[:qpos]) + ["q:."] + (chain_args(args[qpos:]) if (qpos + k) % 2 and n > qpos else chain_pct(args[qpos:]))
+                    yield fmt_case(f, ops), "fmt-requery"
+                    yield fmt_case(f, ops + ["q:.", "q:."]), "fmt-requery"
+        # sizes: formats and arguments beyond the small-string buffer and beyond 64 / 255 / 4096 bytes, many placeholders
+        SIZES = [15, 16, 17, 63, 64, 65, 255, 256, 257, 1000] + ([4096, 20000] if tier == "thorough" else [4097])
+        for size in SIZES:
+            for k in [0, 1, 2, 9, 33, 100, 300]:
+                if 2 * k > size:
+                    continue
+                gap = (size - 2 * k) // (k + 1)
+                f = ("{}".join([("abcdefghij" * (gap // 10 + 1))[:gap]] * (k + 1)) + "}" * size)[:size] if k else ("{a}" * size)[:size]
+                k2 = f.count("{}")
+                for n in sorted(set([k2, max(0, k2 - 1), k2 + 1])):
+                    args = [("i", j) if j % 3 else S("v%d" % j) for j in range(n)]
+                    yield fmt_case(f, chain_pct(args)), "fmt-long"
+                    if n <= 8:
+                        yield fmt_case(f, chain_args(args)), "fmt-long"
+            yield fmt_case("<{}>{}", chain_pct([S("y" * size), S("{}" * (size // 2))])), "fmt-long"
+        # the "..."_nf literal (fixed table in the driver), a formatter as an argument of an exception
+        LITS = ["", "{}", "a", "a{}b", "{}{}", "{{}}", "}{", "id={} n={}", "0123456789abcdef{}", "{} and {} and {}", "%s {} $& \\{\\}",
+                "line\n{}\ttab", "\xe4{}\xff"]
+        for f in LITS:
+            k = f.count("{}")
+            for n in sorted(set([k, max(0, k - 1), k + 1])):
+                args = [A(CARGS[j % len(CARGS)]) for j in range(n)]
+                yield " ".join(["lit", hx(f)] + chain_pct(args)), "lit"
+                yield " ".join(["lit", hx(f)] + chain_mixed(args, rng)), "lit"
+                if "\x00" not in f:
+                    yield " ".join(["excf", hx(f)] + chain_pct(args)), "excf"
+                    yield " ".join(["excf", hx(f)] + chain_mixed(args, rng)), "excf"
         # value categories of string arguments: s const lvalue, n the caller's non-const variable (same text = same variable),
         # r temporary, l const char*, c char — the same variable for several placeholders and again in a later formatter
         POOL = ["n616263", "n78", "s616263", "r616263", "l616263", "c61", "n-"]
@@ -335,6 +378,9 @@ class C08(Check):
         for n in range(1, 4 if tier == "quick" else 5):
             for t in itertools.product(["", "x", "{}", "a b"], repeat=n):
                 yield "exc " + " ".join(warg(S(x)) for x in t), "exc-exh"
+        for n in range(1, 4):
+            for t in itertools.product(["n616263", "n78", "r616263", "l616263", "c61", "s616263"], repeat=n):
+                yield "exc " + " ".join(t), "exc-valcat"
         R = 800 if tier == "quick" else 8000
         for _ in range(R):
             n = rng.randint(1, 8)
@@ -354,7 +400,7 @@ class C08(Check):
     def nontrivial(self, case, mobs, iobs):
         kind, f, ops = parse_case(case)
         n = sum(len(a) for _, a in ops)
-        if kind in ("fmt", "seq"):
+        if kind in ("fmt", "seq", "lit", "excf"):
             return "{}" in f and n >= 1
         if kind == "os":
             return "{}" in f or n >= 1
@@ -379,14 +425,14 @@ class C08(Check):
             k = f.count("{}")
             return ("rel", ww[1], (iobs.split(" ") + ["", ""])[1] == "R", len(f) <= 15, len(unhx(ww[3])) <= 15, min(k, 4), max(-1, min(1, n - k)),
                     sep > 4, sep < len(ww) - 1, kinds)
-        if kind in ("fmt", "seq"):
+        if kind in ("fmt", "seq", "lit", "excf"):
             k = f.count("{}")
             styles = "".join(sorted(set(c for c, _ in ops)))
             braces_in_args = any(a[0] == "s" and ("7b" in a or "7d" in a) for a in flat)
             # which sticky kind precedes which sensitive kind
             sticky_then = tuple(sorted(set((a[:2] if a[0] == "m" else a[0], b[0]) for i, a in enumerate(flat) for b in flat[i + 1:i + 3]
                                            if a[0] in "hxwtm" and b[0] in "idbfs")))[:4]
-            return (kind, case.count(" / "), iobs.split(" ")[0], min(k, 5), max(-2, min(2, n - k)), styles, kinds, braces_in_args,
+            return (kind, case.count(" / "), iobs.split(" ")[0], min(k, 5) if k <= 5 else (6 if k < 64 else 7), min(len(f) // 16, 3) if len(f) < 64 else (4 if len(f) < 256 else 5), max(-2, min(2, n - k)), styles, kinds, braces_in_args,
                     f.startswith("{}"), f.endswith("{}"), "{}{}" in f, sticky_then)
         return ("exc", iobs.split(" ")[0], min(n, 8), kinds)
 
@@ -416,7 +462,7 @@ class C08(Check):
                         if cw[1] == "-":
                             yield " ".join(w[:lo] + cw[2:] + w[hi:])
             return
-        if w[0] in ("fmt", "seq"):
+        if w[0] in ("fmt", "seq", "lit", "excf"):
             # seq: drop one whole formatter; a single formatter left becomes a fmt case
             if w[0] == "seq":
                 groups, cur = [], []
@@ -438,8 +484,8 @@ class C08(Check):
                     continue
                 if isfmt:
                     isfmt = False
-                    # drop one byte of the format
-                    if o != "-":
+                    # drop one byte of the format (a lit case names an entry of a fixed table: keep it)
+                    if o != "-" and w[0] != "lit":
                         for j in range(0, len(o), 2):
                             yield " ".join(w[:k] + [(o[:j] + o[j + 2:]) or "-"] + w[k + 1:])
                     continue
